@@ -53,6 +53,66 @@ def tape_of(cg):
     return out
 
 
+def multi_input_section(rep, ap, rng, tier):
+    """graphs with several independent variables, wrapped eagerly (all first) or lazily (operations on the first input are recorded
+    before the second input is wrapped; a buffer is allocated in between): replay at other points / kinds / D, P against the program
+    run directly"""
+    n = 20 if tier == 'quick' else 300
+
+    def f(a, b, alloc):
+        """a, b: raw values or Function nodes of shape (2,); alloc: buffer factory"""
+        s1 = ap.sin(a[0]) * a[1] + 1.5
+        buf = alloc(2)
+        buf[0] = s1 * s1
+        buf[1] = a[1] - 0.5
+        t = buf[0] * b[0] + ap.exp(ap.sin(b[1])) * buf[1]
+        return t + s1, t * b[0]
+
+    for it in range(n):
+        lazy = it % 2 == 1
+        kind = rng.choice(['ndarray', 'UTPM'])
+        mk = (lambda: progs.rand_point(rng, 2)) if kind == 'ndarray' else (lambda: ap.UTPM(progs.rand_utpm_data(rng, 2, 2, 2)))
+        xr, yr = mk(), mk()
+        rep.count('multi-input:wrapping', 'lazy' if lazy else 'eager'); rep.count('multi-input:recorded_with', kind)
+        try:
+            cg = ap.CGraph()
+            fx = ap.Function(xr)
+            if lazy:
+                part = ap.sin(fx[0]) * fx[1]          # recorded BEFORE the second independent exists
+                fy = ap.Function(yr)
+            else:
+                fy = ap.Function(yr)
+                part = ap.sin(fx[0]) * fx[1]
+            outs = f(fx, fy, lambda k: ap.zeros(k, dtype=fx))
+            o3 = outs[0] + part
+            cg.trace_off()
+            cg.independentFunctionList = [fx, fy]
+            cg.dependentFunctionList = [outs[0], outs[1], o3]
+        except Exception as e:
+            rep.violation('multi-input:record:exception', 'recording a graph with two independent variables raises %r' % (e,), dict(kind='multi-input', lazy=lazy)); continue
+        for _r in range(3):
+            k2 = rng.choice(['ndarray', 'UTPM', 'UTPM'])
+            if k2 == 'ndarray':
+                x2, y2 = progs.rand_point(rng, 2), progs.rand_point(rng, 2)
+            else:
+                D2, P2 = rng.randint(1, 4), rng.randint(1, 3)
+                x2, y2 = ap.UTPM(progs.rand_utpm_data(rng, D2, P2, 2)), ap.UTPM(progs.rand_utpm_data(rng, D2, P2, 2))
+            rep.case(('multi-input', lazy, kind, k2, repr(as_data(x2).tolist()), repr(as_data(y2).tolist())), True,
+                     sample=dict(check='two independents', wrapping='lazy' if lazy else 'eager', recorded_with=kind, replay_with=k2))
+            try:
+                got = cg.function([x2, y2])
+                zeros = (lambda k: ap.zeros(k, dtype=x2)) if k2 == 'UTPM' else (lambda k: numpy.zeros(k))
+                w = f(x2, y2, zeros)
+                want = [w[0], w[1], w[0] + ap.sin(x2[0]) * x2[1]]
+            except Exception as e:
+                rep.violation('multi-input:replay:exception', 'replaying a graph with two independent variables raises %r' % (e,), dict(kind='multi-input', lazy=lazy, exc=repr(e)[:500])); break
+            if not all(same(g, w_) for g, w_ in zip(got, want)):
+                rep.violation('multi-input:replay:%s' % ('lazy' if lazy else 'eager'), 'graph with two independents (%s wrapping, recorded with %s, replayed with %s): replay differs from the program run directly'
+                              % ('lazy' if lazy else 'eager', kind, k2), dict(kind='multi-input', lazy=lazy, x=as_data(x2).tolist(), y=as_data(y2).tolist(),
+                                                                                got=[as_data(g).tolist() for g in got], want=[as_data(w_).tolist() for w_ in want]))
+                break
+
+
 def main(tier, seed):
     ap = lib.import_algopy()
     rep = Report(PID, tier, seed)
@@ -144,6 +204,7 @@ def main(tier, seed):
                               dict(kind='replay', prog=prog, case=meta, x_rec=as_data(x_rec).tolist(), x_new=as_data(xn).tolist(), new=nmeta,
                                    got=[as_data(g).tolist() for g in got], want=[as_data(w).tolist() for w in want]))
                 break
+    multi_input_section(rep, ap, rng, tier)
     verdicts, logs = lib.eval_bool_cases(PID, tm.IMPORTS, tm.DEFS, terms, per_file=40)
     bad = 0
     for m, v, t in zip(metas, verdicts, terms):
